@@ -30,6 +30,7 @@ type faultCase struct {
 	bucket string
 	store  *fakes3.Store
 	epn    int
+	cache  int // node_cache_entries of the connection the faults hit
 	log    []string
 	failed bool
 }
@@ -76,7 +77,7 @@ func (c *faultCase) runProgram(p []fStmt, seedPrefix [][]any) (res runResult, db
 	res.acked = map[string]bool{}
 	open := func() error {
 		table = "t" + sqlh.Uniq()
-		return sqlh.Exec(db, sqlh.CreateSQL(sqlh.TableOpts{Name: table, Bucket: c.bucket, Prefix: "p", Columns: "k primary key, a", EntriesPerNode: c.epn}))
+		return sqlh.Exec(db, sqlh.CreateSQL(sqlh.TableOpts{Name: table, Bucket: c.bucket, Prefix: "p", Columns: "k primary key, a", EntriesPerNode: c.epn, NodeCache: c.cache}))
 	}
 	if err := open(); err != nil {
 		res.outcomes = append(res.outcomes, "ERR open: "+sqlh.ErrClass(err))
@@ -242,7 +243,12 @@ func (c *faultCase) run() {
 					rd.Close()
 					break
 				}
-				rows, _ := sqlh.Query(rd, fmt.Sprintf(`select k from "%s"`, t2))
+				rows, err := sqlh.Query(rd, fmt.Sprintf(`select k from "%s"`, t2))
+				if err != nil {
+					c.fail(fmt.Sprintf("request %d fails (%s, persistent=%v): a new connection cannot read the table afterwards: %v", k, kind, persistent, err))
+					rd.Close()
+					break
+				}
 				have := map[string]bool{}
 				for _, r := range rows {
 					have[strings.TrimPrefix(r[0], "I:")] = true
@@ -286,7 +292,7 @@ func faultCmd(args []string) int {
 	fs.Parse(args)
 	setKnown(*kn)
 	st := NewStats("fault", *seed)
-	st.Rule = "SQL programs (open, 6-14 statements: inserts, range updates, deletes, scans, counts, s3db_refresh, close/re-open; buckets with one or two unmerged versions; entries_per_node in {2,4,4096}) are first run fault-free, counting the object-store requests; then re-run from the same bucket with a fault at EVERY request index (every 2nd when > 120) x {transport error, expired context} x {single, persistent (every 3rd index)}; every statement before the first error must return the complete fault-free answer, an acknowledged INSERT must be visible to a later open, after the fault clears refresh + write + a new connection must work; each program runs in a child process with a time limit (panic / hang detection); distinct = distinct program (all non-trivial)"
+	st.Rule = "SQL programs (open, 6-14 statements: inserts, range updates, deletes, scans, counts, s3db_refresh, close/re-open; buckets with one or two unmerged versions; entries_per_node in {2,4,4096}, node_cache_entries in {0,1000}) are first run fault-free, counting the object-store requests; then re-run from the same bucket with a fault at EVERY request index (every 2nd when > 120) x {transport error, expired context} x {single, persistent (every 3rd index)}; every statement before the first error must return the complete fault-free answer, an acknowledged INSERT must be visible to a later open, after the fault clears refresh + write + a new connection must work; each program runs in a child process with a time limit (panic / hang detection); distinct = distinct program (all non-trivial)"
 	isChild, from, to := childRange()
 	if !isChild {
 		NewEmitter(*outp+".ops", *outp+".exp").Close()
@@ -300,7 +306,7 @@ func faultCmd(args []string) int {
 	for i := from; i < to; i++ {
 		r := root.Fork(i)
 		b, store := sqlh.Bucket()
-		c := &faultCase{st: st, r: r, id: fmt.Sprintf("fault-%d-%d", *seed, i), bucket: b, store: store, epn: gen.Pick(r, []int{2, 4, 4096})}
+		c := &faultCase{st: st, r: r, id: fmt.Sprintf("fault-%d-%d", *seed, i), bucket: b, store: store, epn: gen.Pick(r, []int{2, 4, 4096}), cache: gen.Pick(r, []int{0, 1000})}
 		progressLine(fmt.Sprintf("CASE %d", i))
 		c.run()
 		st.Cases++
